@@ -323,7 +323,8 @@ def check_C17(work, prop, tier, seed, t0):
     return env_check(work, prop, tier, seed, t0, jobs, ["Inv_C17", "Inv_C01", "Inv_C02", "Inv_C06"], model_runs,
                      "one dedicated process per kind; on a tree of bounded size: %d mixed queries, six runs of %d queries of ONE kind each (search, range, prefix, "
                      "min/max/top/bottom complete and stopped early, walks), %d overwrites, %d delete/re-insert operations, then "
-                     "every key deleted; live heap after two forced collections at 5 checkpoints per phase; judged by the specification's bounds "
+                     "every key deleted; a sliding window over fresh keys at a bounded live size and queries with fresh absent arguments on separate trees; "
+                     "live heap after two forced collections at 5 checkpoints per phase; judged by the specification's bounds "
                      "(growth within a phase <= 512 KiB, emptied tree <= 512 KiB above the heap before the first insert)" % (ops, ops // 2, ops, ops),
                      ["heap measurements include the harness's own constant allocations; thresholds are ~50x the observed noise and well below a 16 B/op leak at these counts"],
                      level="exploration")
